@@ -4,6 +4,7 @@ import Mathlib.Data.Matrix.Mul
 import Mathlib.Algebra.BigOperators.Fin
 import Mathlib.Data.Real.Basic
 import Mathlib.Tactic.Linarith
+import Mathlib.Tactic.Ring
 import Mathlib.Tactic.SplitIfs
 /-
 Helper lemmas for C16: constructor validation, the component-selecting measurement matrix, the
@@ -237,5 +238,142 @@ theorem sensorFreeze_ge {α : Type} [Add α] [Mul α] [Zero α] [Inhabited α] {
     (H : Mat α m n) (SR : Mat α m m) (s : Sensor α n m) (h : s.sim.target.length ≤ s.sim.cursor) :
     sensorFreeze H SR s = (s, false) := by
   simp only [sensorFreeze, step_buffer_ge s.sim h]
+
+end BFL.Models
+
+namespace BFL.Models
+
+/-! ### the measurement description computed from `H` -/
+
+theorem find?_of_unique {β : Type} (l : List β) (p : β → Bool) (a : β) (ha : a ∈ l) (hpa : p a = true)
+    (huniq : ∀ b ∈ l, p b = true → b = a) : l.find? p = some a := by
+  induction l with
+  | nil => simp at ha
+  | cons x xs ih =>
+    by_cases hx : p x = true
+    · have : x = a := huniq x (List.mem_cons_self) hx
+      subst this
+      simp [List.find?_cons, hpa]
+    · have hxa : x ≠ a := fun e => hx (e ▸ hpa)
+      have ha' : a ∈ xs := by
+        rcases List.mem_cons.mp ha with h | h
+        · exact absurd h.symm hxa
+        · exact h
+      simp only [List.find?_cons, Bool.not_eq_true] at hx ⊢
+      rw [hx]
+      exact ih ha' (fun b hb => huniq b (List.mem_cons_of_mem _ hb))
+
+theorem absV_zero : absV (0 : ℝ) = 0 := by simp [absV]
+theorem absV_one : absV (1 : ℝ) = 1 := by
+  simp only [absV]; rw [if_neg (by norm_num)]
+
+theorem rowArgmaxAbs_linearModelH {n : Nat} (idx : List Nat) (i : Fin idx.length) (h : idx[i.val] < n) :
+    rowArgmaxAbs (linearModelH (α := ℝ) n idx) i = some ⟨idx[i.val], h⟩ := by
+  unfold rowArgmaxAbs
+  apply find?_of_unique
+  · exact List.mem_finRange _
+  · rw [List.all_eq_true]
+    intro k _
+    have h1 : (linearModelH (α := ℝ) n idx) i ⟨idx[i.val], h⟩ = 1 := (linearModelH_one_iff idx i _).2 rfl
+    rw [h1, absV_one]
+    rcases linearModelH_entry idx i k with hk | hk <;> rw [hk] <;> simp [absV_zero, absV_one]
+  · intro j _ hj
+    rw [List.all_eq_true] at hj
+    have hmax := hj ⟨idx[i.val], h⟩ (List.mem_finRange _)
+    have h1 : (linearModelH (α := ℝ) n idx) i ⟨idx[i.val], h⟩ = 1 := (linearModelH_one_iff idx i _).2 rfl
+    rw [h1, absV_one] at hmax
+    rcases linearModelH_entry idx i j with hk | hk
+    · rw [hk, absV_zero] at hmax
+      simp at hmax
+    · have := (linearModelH_one_iff idx i j).1 hk
+      exact Fin.ext this.symm
+
+theorem sensorSel_linearModelH {n : Nat} (idx : List Nat) (hall : ∀ c ∈ idx, c < n) :
+    sensorSel (linearModelH (α := ℝ) n idx) = idx := by
+  unfold sensorSel
+  apply List.ext_getElem
+  · simp
+  · intro k h1 h2
+    simp only [List.getElem_map, List.getElem_finRange]
+    have hk : k < idx.length := by simpa using h1
+    have hlt : idx[k] < n := hall _ (List.getElem_mem hk)
+    have := rowArgmaxAbs_linearModelH (n := n) idx ⟨k, hk⟩ hlt
+    simp only [rowSel, Fin.cast_mk]
+    rw [this]
+
+theorem sensorMeasDescrH_eq {n : Nat} (state : Descr) (idx : List Nat) (hall : ∀ c ∈ idx, c < n) :
+    sensorMeasDescrH state (linearModelH (α := ℝ) n idx) = sensorMeasDescr state idx := by
+  unfold sensorMeasDescrH sensorMeasDescr
+  simp only []
+  rw [sensorSel_linearModelH idx hall]
+
+end BFL.Models
+
+namespace BFL.Models
+open Matrix
+
+/-! ### `k` successive freezes (history lift) -/
+
+/-- what the sensor holds after `k` freezes, starting with cursor `c ≤ L` -/
+theorem sensorFreezeN_spec {n m : Nat} (H : Mat ℝ m n) (SR : Mat ℝ m m) (s : Sensor ℝ n m)
+    (L c : Nat) (hL : s.sim.target.length = L) (hcu : s.sim.cursor = c) (hc : c ≤ L) (k : Nat) :
+    (sensorFreezeN H SR s k).sim.target = s.sim.target ∧
+    (sensorFreezeN H SR s k).sim.cursor = min (c + k) L ∧
+    (sensorFreezeN H SR s k).rng.stream = s.rng.stream ∧
+    (sensorFreezeN H SR s k).rng.pos = s.rng.pos + m * (min (c + k) L - c) ∧
+    (∀ j, c ≤ j → j + 1 = min (c + k) L →
+      ∃ (h : j < s.sim.target.length) (y : Vec ℝ m), (sensorFreezeN H SR s k).meas = some y ∧
+        toV y = toM H *ᵥ toV (s.sim.target[j]'h)
+                + toM SR *ᵥ (fun i : Fin m => s.rng.stream (s.rng.pos + m * (j - c) + i.val))) := by
+  induction k with
+  | zero =>
+    refine ⟨rfl, ?_, rfl, ?_, ?_⟩
+    · simp only [sensorFreezeN, hcu]; omega
+    · simp only [sensorFreezeN]
+      have : min (c + 0) L - c = 0 := by omega
+      rw [this]; simp
+    · intro j hj1 hj2; omega
+  | succ k ih =>
+    obtain ⟨ht, hcur, hstr, hpos, hmeas⟩ := ih
+    simp only [sensorFreezeN]
+    generalize sensorFreezeN H SR s k = t at ht hcur hstr hpos hmeas ⊢
+    by_cases hlt : c + k < L
+    · -- one more state is served
+      have hmin : min (c + k) L = c + k := by omega
+      have hcur' : t.sim.cursor = c + k := by rw [hcur, hmin]
+      have hlt' : t.sim.cursor < t.sim.target.length := by rw [ht, hcur', hL]; exact hlt
+      rw [sensorFreeze_lt H SR t hlt']
+      have he : min (c + (k + 1)) L = c + k + 1 := by omega
+      rw [he]
+      refine ⟨ht, by simp only [hcur'], hstr, ?_, ?_⟩
+      · simp only [Rng.draw]
+        rw [hpos]
+        have e1 : min (c + k) L - c = k := by omega
+        have e2 : c + k + 1 - c = k + 1 := by omega
+        rw [e1, e2]; ring
+      · intro j hj1 hj2
+        have hj : j = c + k := by omega
+        subst hj
+        have hidx : c + k < s.sim.target.length := by rw [hL]; exact hlt
+        refine ⟨hidx, _, rfl, ?_⟩
+        rw [sensorMeasurement_eq]
+        have hx : t.sim.target[t.sim.cursor]'hlt' = s.sim.target[c + k]'hidx := by
+          simp only [ht, hcur']
+        rw [hx]
+        congr 2
+        funext i
+        simp only [Mat.col, Rng.draw, fillCM, Mat.eval_eq, toV_apply, Vec.of_apply, Mat.of_apply]
+        rw [hstr, hpos]
+        congr 1
+        have e1 : min (c + k) L - c = k := by omega
+        have e2 : c + k - c = k := by omega
+        rw [e1, e2]; omega
+    · -- exhausted: nothing changes
+      have hcur' : t.sim.cursor = L := by rw [hcur]; omega
+      have hge : t.sim.target.length ≤ t.sim.cursor := by rw [ht, hcur', hL]
+      rw [sensorFreeze_ge H SR t hge]
+      have he : min (c + (k + 1)) L = min (c + k) L := by omega
+      rw [he]
+      exact ⟨ht, hcur, hstr, hpos, hmeas⟩
 
 end BFL.Models
